@@ -46,7 +46,6 @@ import (
 
 // ---------------------------------------------------------------- worker
 
-
 // siteOf returns the first library frame of a stack dump (function name without package path).
 func siteOf(stack string) string {
 	for _, line := range strings.Split(stack, "\n") {
@@ -409,7 +408,7 @@ type c07Mut struct {
 	Off   int    `json:"off"`
 	W     int    `json:"w"`
 	Val   uint64 `json:"val"`
-	Ctx   string `json:"ctx"`            // nearest preceding structure signature and the offset inside it
+	Ctx   string `json:"ctx"`           // nearest preceding structure signature and the offset inside it
 	Rnd   []int  `json:"rnd,omitempty"` // random class: offset/value pairs
 }
 
